@@ -287,6 +287,11 @@ def decode_case(case):
         kwargs["dtype"] = kwargs["dtype"][2:]
     if "finalize_kwargs" in kwargs and "q" in kwargs["finalize_kwargs"]:
         pass
+    if len(bys) > 1:
+        if isinstance(kwargs.get("expected_groups"), list):
+            kwargs["expected_groups"] = tuple(kwargs["expected_groups"])
+        if isinstance(kwargs.get("isbin"), list):
+            kwargs["isbin"] = tuple(kwargs["isbin"])
     if isinstance(kwargs.get("func"), dict) and "custom" in kwargs["func"]:
         from .custom_aggs import make_custom
 
@@ -586,3 +591,66 @@ def plain_kwargs(case) -> dict:
     """kwargs with the JSON string markers removed (for cells / probes / oracles)."""
     kw = dec_value(case["kwargs"])
     return kw
+
+
+def gen_multi_by_case(tape: Tape, *, funcs=("sum", "nansum", "mean", "nanmean", "count", "max", "nanmin", "var", "prod", "any"),
+                      allow_faults: bool = True, max_blocks: int = 6) -> dict:
+    """Two groupers (categorical x categorical-or-binned), numpy or dask labels, 1-2-D values."""
+    func = tape.choice("gen.func", funcs)
+    n = tape.randint("gen.n", 3, 20)
+    g1 = tape.randint("gen.g1", 1, 3)
+    g2 = tape.randint("gen.g2", 1, 3)
+    c1, _ = gen_codes(tape, n, g1, label="gen.lab1")
+    c2, _ = gen_codes(tape, n, g2, label="gen.lab2")
+    lab1 = (c1 * 2 + 1).astype("i8")
+    binned = tape.chance("gen.binned", 0.4)
+    if binned:
+        # second grouper: values binned by edges (pandas.cut semantics, right-closed)
+        lab2 = (c2.astype("f8") + tape.choice("gen.binoff", [0.25, 0.5, 1.0]))
+        edges = np.arange(0, g2 + 1).astype("f8")
+        if tape.chance("gen.binmiss", 0.3):
+            lab2[tape.draw("gen.binmiss.pos", n)] = np.nan
+    else:
+        lab2 = (c2 + 10).astype("f8")
+        if tape.chance("gen.lab2miss", 0.3):
+            lab2[tape.draw("gen.lab2miss.pos", n)] = np.nan
+    dtype = "b1" if func in BOOL else tape.choice("gen.dtype", ["f8", "f8", "i8", "f4"])
+    dt = np.dtype(dtype)
+    lead = [tape.randint("gen.lead", 1, 2)] if tape.chance("gen.ndim2", 0.3) else []
+    shape = lead + [n]
+    alphabet = (PROD_FLOAT if dt.kind == "f" else PROD_INT) if func in PROD_FAMILY else None
+    vals = gen_values(tape, int(np.prod(shape)), dtype=dtype, nan_p=(tape.choice("gen.nanp", [0.0, 0.2]) if dt.kind == "f" else 0.0),
+                      alphabet=alphabet).reshape(shape)
+    chunks = [gen_chunks(tape, s, "gen.chunks.lead", max_blocks=2) for s in lead] + [gen_chunks(tape, n, max_blocks=max_blocks)]
+    by_dask = tape.chance("gen.bydask", 0.35)
+    kwargs: dict = {"func": func}
+    exp1 = np.array(sorted(set(lab1.tolist())))
+    if tape.chance("gen.exp1.extra", 0.3):
+        exp1 = np.append(exp1, exp1.max() + 4)
+    if binned:
+        kwargs["expected_groups"] = [exp1, edges]
+        kwargs["isbin"] = [False, True]
+    else:
+        # always request the labels explicitly: what an absent (label1, label2) combination of *unrequested*
+        # labels holds is not specified (eager: dtype NA sentinel, chunked: the fill), see DESIGN 10
+        exp2 = np.array(sorted(set(x for x in lab2.tolist() if x == x)) or [10.0])
+        kwargs["expected_groups"] = [exp1, exp2]
+    # with two groupers a (label1, label2) combination may always be absent: a fill_value is part of the contract
+    kwargs["fill_value"] = False if func in BOOL else (0 if dt.kind in "iu" and func not in ("mean", "nanmean", "var") else
+                                                        tape.choice("gen.fill", [math.nan, 0.0]))
+    method = tape.choice("gen.method", [None, None, "map-reduce", "cohorts"])
+    if by_dask and method == "cohorts":
+        method = "map-reduce"
+    if method is not None:
+        kwargs["method"] = method
+    case = {
+        "kind": "reduce",
+        "array": enc_array(vals),
+        "by": [enc_array(lab1), enc_array(lab2)],
+        "chunks": chunks,
+        "by_dask": bool(by_dask),
+        "kwargs": enc_value(kwargs),
+        "knobs": swarm_knobs(tape, len(chunks[-1]), allow_faults=allow_faults),
+        "meta": {"pattern": "multi-by" + ("-binned" if binned else ""), "label_kind": "multi", "ngroups": int(g1 * g2), "nby": 2},
+    }
+    return case
